@@ -178,7 +178,7 @@ def check_pair(ctx, src_enc, oth_enc, deep=False):
         if rejected is not None:
             ctx.check(raised is not None, site + '/accepted-invalid', base,
                       lambda: f'{der!r}: model rejects ({rejected.reason}) but a definition was returned: {res!r}')
-            ctx.check(type(raised).__name__ == rejected.exc, site + '/exception-class', base,
+            ctx.check(dm.is_exc(raised, rejected.exc), site + '/exception-class', base,
                       lambda: f'{der!r} raised {type(raised).__name__}, documented {rejected.exc}')
             continue
         if raised is not None:
@@ -281,7 +281,7 @@ def make_machine(ctx):
                 try:
                     real_derive(src, oth, der)
                 except Exception as e:  # noqa: BLE001
-                    ctx.check(type(e).__name__ == r.exc, 'pool/exception-class', self.case(), f'{der!r}: {type(e).__name__}')
+                    ctx.check(dm.is_exc(e, r.exc), 'pool/exception-class', self.case(), f'{der!r}: {type(e).__name__}')
                     return
                 ctx.fail('pool/accepted-invalid', self.case()(), f'{der!r} accepted although the model rejects ({r.reason})')
             res = ctx.call('pool/derive:' + der[0], self.case(), real_derive, src, oth, der)
@@ -343,7 +343,7 @@ def replay_pool(ctx, log):
                 try:
                     real_derive(src, oth, der)
                 except Exception as ex:  # noqa: BLE001
-                    ctx.check(type(ex).__name__ == r.exc, 'pool/exception-class', case, f'{der!r}: {type(ex).__name__}')
+                    ctx.check(dm.is_exc(ex, r.exc), 'pool/exception-class', case, f'{der!r}: {type(ex).__name__}')
                     continue
                 ctx.fail('pool/accepted-invalid', case(), f'{der!r} accepted')
             res = ctx.call('pool/derive:' + der[0], case, real_derive, src, oth, der)
